@@ -72,18 +72,19 @@ def fingerprint(*roots):
             isinstance(o, (list, tuple, dict, set)) or _is_valida_obj(o)
         )
 
+    stack = []
+
     def ref(o):
         if prim(o):
             if isinstance(o, type) or callable(o):
                 return ("p", getattr(o, "__qualname__", repr(o)))
             return ("p", type(o).__name__, repr(o))
-        visit(o)
+        if id(o) not in out:
+            stack.append(o)
         return ("id", id(o))
 
     def visit(o):
-        if id(o) in out:
-            return
-        out[id(o)] = None
+        # (iterative: a combination of a hundred operands is an object graph several hundred levels deep)
         if isinstance(o, dict):
             out[id(o)] = ("dict", tuple((ref(k), ref(v)) for k, v in o.items()))
         elif isinstance(o, (list, tuple)):
@@ -98,6 +99,11 @@ def fingerprint(*roots):
 
     for r in roots:
         ref(r)
+    while stack:
+        o = stack.pop()
+        if id(o) not in out:
+            out[id(o)] = None
+            visit(o)
     return out
 
 
